@@ -1007,6 +1007,11 @@ def check_results(ctx, jobs, results, label):
     ctx.count("model_key_mismatches", mism)
 
 
+def n_recorded(ctx, known=False):
+    """failures recorded so far: those attributed to the known OVC finding / all others"""
+    return sum(1 for f in ctx.failures if f["key"].startswith("stale-fantasy:") == known)
+
+
 def check_job(ctx, kind, tokens, seed, recs, stats):
     """(b) the property itself on one history: every compared call vs the freshly constructed model"""
     two = any(t[0] == "@" for t in tokens)
@@ -1050,7 +1055,10 @@ def check_job(ctx, kind, tokens, seed, recs, stats):
             if f.get("skipped"):
                 ctx.count("fantasy_models_of_a_degraded_source_not_compared")
             bad = not f.get("skipped") and (f["error"] is not None or not (f["diff"] <= f["tol"]))
-            if bad and len(ctx.failures) < 40:
+            if bad and f.get("ovc_signature"):
+                ctx.count("fantasy_divergences_with_the_known_ovc_signature")
+            # (the attributed known finding has its own, smaller cap: it must never use up the room of real failures)
+            if bad and (n_recorded(ctx, known=True) < 12 if f.get("ovc_signature") else n_recorded(ctx) < 40):
                 pat = f"predict[{cell_name(f['a'])}]>predict[{cell_name(f['b'])}]"
                 what = f["error"] if f["error"] is not None else f"differs by {f['diff']:.3g} (relative; tolerance {f['tol']:g})"
                 # `stale-fantasy:` only for the exactly attributed OVC inconsistency of variational fantasy models
@@ -1059,7 +1067,7 @@ def check_job(ctx, kind, tokens, seed, recs, stats):
                          f"vs a second fantasy model made from the same source called under the second cell only: {what}",
                          {"kind": kind, "seed": seed, "ops": tokens[:n + 1], "fantasy_pair": [f["a"], f["b"]], "what": what})
     i = first_divergence(recs)
-    if i is not None and len([f for f in ctx.failures]) < 40:
+    if i is not None and n_recorded(ctx) < 40:
         training_div = recs[i]["training"]
         small = shrink(kind, tokens, seed, i, training_div)
         pre = ("stale-train" if training_div else "stale") + ("-shared" if any(t == "@A" for t in small) else "")
